@@ -3,7 +3,7 @@ from vf import qcheck
 
 def run(chk):
     thorough = chk.tier == "thorough"
-    n_dbs, per = (400, 40) if thorough else (40, 35)
+    n_dbs, per = (600, 40) if thorough else (100, 35)
     chk.rule = ("random databases (1-4 tables, NULL density/skew/duplicates/empty tables) x type-directed random composed queries "
                 "(joins, grouping sets, DISTINCT, UNION, ORDER BY/LIMIT, CTEs, derived tables, scalar/EXISTS/IN/ANY/ALL subqueries); "
                 "oracle = naive reference interpreter on the same AST; distinct non-trivial = distinct (feature-tag set, database) "
